@@ -186,9 +186,12 @@ def run_case(case: dict) -> CaseResult:
     snap = {}
     post: list[str] = []
     open_calls: set[int] = set()
+    aux = {"disc": False}
+    subs: dict[int, dict] = {}  # plain subscriptions living next to the calls: sid -> {type, unsub, active, got}
     ended: dict[int, float] = {}
     last_tick = max(
         [c["at"] + int(c["timeout"] * 256) for c in calls] + [m[0] for m in case.get("msgs", [])] + [0]
+        + ([case["close"][0]] if case.get("close") else []) + [o[0] for o in case.get("subs", [])]
     )
 
     def armed_request_timers() -> int:
@@ -207,10 +210,16 @@ def run_case(case: dict) -> CaseResult:
                 for tid in calls[j]["types"]:
                     n = by_id[tid].__name__
                     want[n] = want.get(n, 0) + 1
+            for sb in subs.values():
+                if sb["active"]:
+                    n = by_id[sb["type"]].__name__
+                    want[n] = want.get(n, 0) + 1
+            if aux["disc"]:
+                want["DisconnectResponse"] = want.get("DisconnectResponse", 0) + 1
             if extra != want:
                 post.append(f"handlers-after-call-end:extra={extra}:open-calls-need={want}")
         n_t = armed_request_timers()
-        if n_t != len(open_calls):
+        if n_t != len(open_calls) + (1 if aux["disc"] else 0):
             post.append(f"request-timers:{n_t}-armed-with-{len(open_calls)}-open-calls")
 
     def then(sess: Session):
@@ -229,7 +238,8 @@ def run_case(case: dict) -> CaseResult:
                         (pb.SwitchCommandRequest(key=100 + i),),
                         _pred(c.get("append")),
                         _pred(c.get("stop")),
-                        tuple(by_id[t] for t in c["types"]),
+                        # "dup": the caller lists a response type twice (e.g. (T, *extra) with T in extra too)
+                        tuple(by_id[t] for t in (c["types"] + c["types"][: int(c.get("dup", 0))])),
                         float(c["timeout"]),
                     )
                 finally:
@@ -245,6 +255,35 @@ def run_case(case: dict) -> CaseResult:
             sess.device_send_at(t0 + tick * TICK, by_id[tid](key=key))
         for tick, i in case.get("cancels", []):
             loop.sim_at(t0 + tick * TICK, env.cancel, f"call{i}")
+
+        # plain subscriptions on the same response types come and go next to the calls (a redundant second unsubscribe
+        # included): they see every message of their type while active and never disturb a call
+        def sub_op(op, sid, tid):
+            conn = sess.conn
+            if conn.connection_state.name == "CLOSED":
+                return
+            if op == "sub" and sid not in subs:
+                sb = {"type": tid, "active": True, "got": []}
+                sb["unsub"] = conn.add_message_callback(lambda m, sb=sb: sb["got"].append((loop.now(), m.key)), (by_id[tid],))
+                subs[sid] = sb
+            elif op == "unsub" and sid in subs:
+                subs[sid]["unsub"]()  # may be the second call on the same subscription: a no-op
+                if subs[sid]["active"]:
+                    subs[sid]["active"] = False
+                    subs[sid]["until"] = loop.now()
+
+        for tick, op, sid, tid in case.get("subs", []):
+            loop.sim_at(t0 + tick * TICK, sub_op, op, sid, tid)
+        if case.get("predisc") is not None:
+            # a local disconnect() merely in progress (request sent, device does not answer) when the close arrives
+            async def predisc():
+                aux["disc"] = True
+                try:
+                    await sess.cli.disconnect()
+                finally:
+                    aux["disc"] = False
+
+            loop.sim_at(t0 + case["predisc"] * TICK, lambda: env.spawn("predisc", predisc()))
         if case.get("close"):
             tick, how = case["close"]
 
@@ -329,7 +368,28 @@ def run_case(case: dict) -> CaseResult:
                 res.violations.append(Violation(ID, f"c11:close-error-class:{type(val).__name__}-expected-{wantcls}", f"call {i}"))
     for p in post[:1]:
         res.violations.append(Violation(ID, "c11:leftover:" + p.split(":")[0], p))
+    # the plain subscriptions next to the calls: every message of their type while active, nothing else
+    sub_on: dict[int, list] = {}
+    for tick, op, sid, tid in case.get("subs", []):
+        if op == "sub":
+            sub_on.setdefault(sid, [tick, None, tid])
+        elif sid in sub_on and sub_on[sid][1] is None:
+            sub_on[sid][1] = tick
+    ctick = closed[0] if closed else None
+    for sid, (a, b, tid) in sub_on.items():
+        if ctick is not None and a > ctick:
+            continue
+        want_keys = [m[2] for m in sorted(case.get("msgs", []), key=lambda m: m[0]) if m[1] == tid and a < m[0] and (b is None or m[0] <= b) and (ctick is None or m[0] <= ctick)]
+        got_keys = [k for _t, k in subs.get(sid, {}).get("got", [])]
+        if got_keys != want_keys:
+            res.violations.append(Violation(ID, "c11:plain-subscription-disturbed", f"subscription {sid} on type {tid} active ticks ({a}, {b}]: got keys {got_keys}, expected {want_keys}"))
     if closed is None:
+        base_h = dict(snap.get("handlers") or {})
+        for sb in subs.values():
+            if sb["active"]:
+                n = by_id[sb["type"]].__name__
+                base_h[n] = base_h.get(n, 0) + 1
+        snap["handlers"] = base_h
         if snap.get("final_handlers") != snap.get("handlers"):
             res.violations.append(Violation(ID, "c11:leftover:handlers-at-end", f"{snap.get('final_handlers')} vs baseline {snap.get('handlers')}"))
         if snap.get("final_waiters"):
@@ -350,6 +410,12 @@ def run_case(case: dict) -> CaseResult:
         classes.add("tie")
     if noise:
         classes.add("noise")
+    if case.get("subs"):
+        classes.add("with_plain_subscriptions")
+    if any(c.get("dup") for c in calls):
+        classes.add("duplicate_type_in_call")
+    if case.get("predisc") is not None:
+        classes.add("close_during_local_disconnect")
     res.classes = sorted(classes)
     res.nontrivial = bool({"overlap_shared_type", "tie"} & classes)
     res.info = {"outcomes": {i: exp[i]["out"] for i in exp}, "closed": closed}
@@ -396,6 +462,21 @@ def _case(draw, tier):
         case["cancels"] = draw(st.lists(st.tuples(st.one_of(tick, st.sampled_from([m[0] for m in msgs] or [0])), st.integers(0, n - 1)).map(list), min_size=1, max_size=2))
     if draw(st.integers(0, 2)) == 0:
         case["close"] = [draw(st.one_of(tick, st.sampled_from([m[0] for m in msgs] or [5]))), draw(st.sampled_from(sorted(CLOSE_ERR)))]
+        if case["close"][1] != "writefail" and draw(st.integers(0, 2)) == 0:
+            case["predisc"] = max(0, case["close"][0] - draw(st.sampled_from([0, 1, 2, 8, 100, 600])))
+    if draw(st.integers(0, 2)) == 0:
+        for c in calls:
+            if draw(st.booleans()):
+                c["dup"] = draw(st.integers(1, len(c["types"])))
+    if draw(st.integers(0, 2)) == 0:
+        ops = []
+        for sid in range(draw(st.integers(1, 3))):
+            tid = draw(st.sampled_from(RESP_TYPES))
+            a = draw(tick)
+            ops.append([a, "sub", sid, tid])
+            for _ in range(draw(st.integers(0, 3))):  # more than one = redundant unsubscribe
+                ops.append([a + draw(st.one_of(st.integers(0, 10), st.integers(0, 600))), "unsub", sid, tid])
+        case["subs"] = sorted(ops, key=lambda o: o[0])
     return case
 
 
@@ -414,6 +495,19 @@ def enumerated(tier):
                     "calls": [{"at": 0, "types": [26, 25], "append": ap, "stop": sp, "timeout": 1}, {"at": 0, "types": [26], "append": None, "stop": None, "timeout": 2}],
                     "msgs": [[1, 26, 0], [1, 25, 1], [1, 26, 1], [1, 26, 2], [256, 26, 1], [257, 25, 0]],
                 }
+    # a used-up unsubscribe callable is called again / a call lists its type twice, while another call waits on that type
+    for noise in (False, True):
+        for k in (0, 1, 2, 3):
+            yield {"noise": noise, "calls": [{"at": 4, "types": [26], "append": None, "stop": None, "timeout": 2}],
+                   "msgs": [[20, 26, 1]], "subs": [[0, "sub", 0, 26], [2, "unsub", 0, 26], [4 + k, "unsub", 0, 26]]}
+            yield {"noise": noise, "calls": [{"at": 0, "types": [26], "dup": 1, "append": None, "stop": ["key", 1], "timeout": 1},
+                                             {"at": k, "types": [26], "append": None, "stop": ["key", 2], "timeout": 2}], "msgs": [[8, 26, 1], [16, 26, 2]]}
+            yield {"noise": noise, "calls": [{"at": 0, "types": [26, 25], "dup": 2, "append": None, "stop": ["never"], "timeout": 1},
+                                             {"at": k, "types": [25], "append": None, "stop": None, "timeout": 2}], "msgs": [[300, 25, 2]]}
+    for how in ("eof", "reset", "garbage", "discreq"):
+        for d in (0, 1, 50, 1000):
+            yield {"noise": False, "calls": [{"at": 0, "types": [26], "append": None, "stop": ["never"], "timeout": 10}, {"at": 1100, "types": [25], "append": None, "stop": None, "timeout": 2}],
+                   "msgs": [[3, 26, 1]], "close": [1200, how], "predisc": 1200 - d}
     for how in sorted(CLOSE_ERR):
         for t in (0, 1, 5, 256, 257):
             yield {"noise": False, "calls": [{"at": 0, "types": [26], "append": None, "stop": ["never"], "timeout": 1}, {"at": 4, "types": [25], "append": None, "stop": None, "timeout": 2}], "msgs": [[3, 26, 1]], "close": [t, how]}
